@@ -1346,7 +1346,7 @@ func (f *Frame) execIndexAddr(v *ssa.IndexAddr, st *State) {
 		// Element reads keep the index as the term (+ off i): quantified contract clauses over
 		// s[q] are triggered on exactly that shape. Element writes name the index: fewer
 		// arithmetic terms inside the updated array keep the store reasoning cheap.
-		idx := addT(soff(s), i)
+		idx := sidxT(soff(s), i)
 		if refs := v.Referrers(); refs != nil {
 			for _, r := range *refs {
 				if stv, ok := r.(*ssa.Store); ok && stv.Addr == v {
